@@ -251,8 +251,11 @@ func c16WriteThrough(p *Prog, funcs []*ssa.Function) *WriteThrough {
 	w := NewWriteThrough(p, funcs)
 	added := false
 	add := func(fn *ssa.Function, k int, what string, pos token.Pos) {
-		for _, t := range w.W[fn] {
+		for i, t := range w.W[fn] {
 			if t.Param == k && t.What == what {
+				if len(t.Via) > 1 { // known so far only through a callee: record that fn performs it itself as well
+					w.W[fn][i].Via, w.W[fn][i].Pos = []string{FuncName(fn)}, pos
+				}
 				return
 			}
 		}
@@ -363,6 +366,7 @@ func c16WriteThrough(p *Prog, funcs []*ssa.Function) *WriteThrough {
 		}
 		w.solve()
 	}
+	w.c16PruneAttributedUnknown(funcs)
 	return w
 }
 
@@ -380,10 +384,11 @@ func valueUsed(v ssa.Value) bool {
 	return false
 }
 
-// writtenFreeVars: the captured variables of the function literal cf through which it writes - those from which
-// the address of one of its stores (or the written argument of one of its calls) is computed.
-func (w *WriteThrough) writtenFreeVars(cf *ssa.Function) map[*ssa.FreeVar]bool {
-	var targets []ssa.Value
+// writeTargets lists the values through which cf writes: the address of each of its stores and the written
+// argument of each of its calls (builtins, in-place library algorithms, repository callees with a write fact
+// for that parameter). opaque reports that some callee writes through an object of unknown origin - a write of
+// cf that none of the listed values accounts for.
+func (w *WriteThrough) writeTargets(cf *ssa.Function) (targets []ssa.Value, opaque bool) {
 	for _, e := range Writes(cf) {
 		targets = append(targets, e.Addr)
 	}
@@ -396,19 +401,20 @@ func (w *WriteThrough) writtenFreeVars(cf *ssa.Function) map[*ssa.FreeVar]bool {
 		if c.Common().IsInvoke() {
 			args = append([]ssa.Value{c.Common().Value}, args...)
 		}
-		if len(args) == 0 {
-			return
-		}
 		name, _ := calleeName(c.Common())
 		if b, isB := c.Common().Value.(*ssa.Builtin); isB {
 			switch b.Name() {
 			case "append", "copy", "clear", "delete":
-				targets = append(targets, args[0])
+				if len(args) > 0 {
+					targets = append(targets, args[0])
+				}
 			}
 			return
 		}
 		if isInPlaceLibrary(name) {
-			targets = append(targets, args[0])
+			if len(args) > 0 {
+				targets = append(targets, args[0])
+			}
 			return
 		}
 		for _, callee := range w.calleesOf(cf, c) {
@@ -416,12 +422,22 @@ func (w *WriteThrough) writtenFreeVars(cf *ssa.Function) map[*ssa.FreeVar]bool {
 				if t.Param >= 0 && t.Param < len(args) {
 					targets = append(targets, args[t.Param])
 				}
+				if t.Param == rootUnknown {
+					opaque = true
+				}
 			}
 		}
 		if mc, isMC := c.Common().Value.(*ssa.MakeClosure); isMC { // a nested literal called in place
 			targets = append(targets, mc.Bindings...)
 		}
 	})
+	return
+}
+
+// writtenFreeVars: the captured variables of the function literal cf through which it writes - those from which
+// the address of one of its stores (or the written argument of one of its calls) is computed.
+func (w *WriteThrough) writtenFreeVars(cf *ssa.Function) map[*ssa.FreeVar]bool {
+	targets, _ := w.writeTargets(cf)
 	out := map[*ssa.FreeVar]bool{}
 	seen := map[ssa.Value]bool{}
 	var walk func(v ssa.Value, depth int)
@@ -1235,7 +1251,6 @@ func (r *Run) c16HandOverCounts(par *ssa.Function, gos []*ssa.Go) {
 	}
 }
 
-
 // c16UnpublishedFresh: the field store e writes into an object allocated in fn itself that no call received
 // before the store (so no other goroutine can hold it yet).
 func c16UnpublishedFresh(p *Prog, fn *ssa.Function, e Effect) bool {
@@ -1298,4 +1313,473 @@ func c16UnpublishedFresh(p *Prog, fn *ssa.Function, e Effect) bool {
 		}
 	}
 	return true
+}
+
+// ---------------------------------------------------------------------------
+// Function literals that are created, kept in memory private to one invocation and called by the function that
+// created them (a local table of closures, a slice of steps run by one loop)
+//
+// The engine roots a store that a literal performs through a captured variable at "unknown origin" and hands
+// that fact to every repository caller of the literal. The creator of the literal knows better: it bound the
+// variables, and c16WriteThrough has already added the write under the roots of what it bound. When the call
+// site provably invokes only literals made by this very invocation, and the literal writes through nothing of
+// unknown origin except what it captured, the "unknown origin" fact carries no information beyond the bound one
+// and is dropped. Everything else (a literal that arrives from a field, a parameter or a global; a literal
+// that reassigns a captured variable; a callee of the literal that itself writes through something unknown)
+// keeps the fact.
+
+// typeHoldsFunc: a value of type t is, or contains by value, a function value.
+func typeHoldsFunc(t types.Type, depth int) bool {
+	if depth > 6 {
+		return true
+	}
+	switch x := t.Underlying().(type) {
+	case *types.Signature:
+		return true
+	case *types.Struct:
+		for i := 0; i < x.NumFields(); i++ {
+			if typeHoldsFunc(x.Field(i).Type(), depth+1) {
+				return true
+			}
+		}
+	case *types.Array:
+		return typeHoldsFunc(x.Elem(), depth+1)
+	case *types.Interface:
+		return true
+	}
+	return false
+}
+
+// privateRegion: addr points into a local variable (an Alloc of this function, possibly through field and
+// element addresses and slices of it) whose address never leaves the function: it is only loaded from, stored
+// to, indexed, sliced and measured. Returns the variable.
+func privateRegion(addr ssa.Value) *ssa.Alloc {
+	v := addr
+	for depth := 0; depth < 20; depth++ {
+		switch x := v.(type) {
+		case *ssa.FieldAddr:
+			v = x.X
+			continue
+		case *ssa.IndexAddr:
+			v = x.X
+			continue
+		case *ssa.Slice:
+			v = x.X
+			continue
+		case *ssa.Alloc:
+			if regionStaysPrivate(x, 0, map[ssa.Value]bool{}) {
+				return x
+			}
+		}
+		break
+	}
+	return nil
+}
+
+func regionStaysPrivate(v ssa.Value, depth int, seen map[ssa.Value]bool) bool {
+	if seen[v] {
+		return true
+	}
+	seen[v] = true
+	if depth > 20 || v.Referrers() == nil {
+		return false
+	}
+	for _, ref := range *v.Referrers() {
+		switch x := ref.(type) {
+		case *ssa.DebugRef:
+		case *ssa.FieldAddr, *ssa.IndexAddr, *ssa.Slice:
+			if !regionStaysPrivate(x.(ssa.Value), depth+1, seen) {
+				return false
+			}
+		case *ssa.UnOp:
+			if x.Op != token.MUL {
+				return false
+			}
+			// a load copies what the region holds; the copy is a value, not the region
+		case *ssa.Store:
+			if x.Val == v {
+				return false // the address itself is stored somewhere
+			}
+		case *ssa.Call:
+			b, isB := x.Call.Value.(*ssa.Builtin)
+			if !isB || b.Name() != "len" && b.Name() != "cap" {
+				return false
+			}
+		default:
+			return false
+		}
+	}
+	return true
+}
+
+// regionStores: the values stored anywhere into the region of al.
+func regionStores(al *ssa.Alloc) []ssa.Value {
+	var out []ssa.Value
+	seen := map[ssa.Value]bool{}
+	var walk func(v ssa.Value)
+	walk = func(v ssa.Value) {
+		if seen[v] || v.Referrers() == nil {
+			return
+		}
+		seen[v] = true
+		for _, ref := range *v.Referrers() {
+			switch x := ref.(type) {
+			case *ssa.FieldAddr, *ssa.IndexAddr, *ssa.Slice:
+				walk(x.(ssa.Value))
+			case *ssa.Store:
+				if x.Addr == v {
+					out = append(out, x.Val)
+				}
+			}
+		}
+	}
+	walk(al)
+	return out
+}
+
+// privateMap: m is a map made by this function that is only updated, read, ranged over and measured.
+func privateMap(m ssa.Value) *ssa.MakeMap {
+	mk, ok := m.(*ssa.MakeMap)
+	if !ok || mk.Referrers() == nil {
+		return nil
+	}
+	for _, ref := range *mk.Referrers() {
+		switch x := ref.(type) {
+		case *ssa.DebugRef, *ssa.Lookup, *ssa.Range:
+		case *ssa.MapUpdate:
+			if x.Map != ssa.Value(mk) {
+				return nil
+			}
+		case *ssa.Call:
+			b, isB := x.Call.Value.(*ssa.Builtin)
+			if !isB || b.Name() != "len" {
+				return nil
+			}
+		default:
+			return nil
+		}
+	}
+	return mk
+}
+
+// localFuncOrigins: the function values that v (a function value, or an aggregate holding some) can be,
+// provided every one of them was produced by this invocation of the function and reached v only through
+// registers and private memory. ok=false: v may (also) be something else.
+func localFuncOrigins(v ssa.Value, depth int, seen map[ssa.Value]bool, out *[]ssa.Value) bool {
+	if seen[v] {
+		return true
+	}
+	seen[v] = true
+	if depth > 30 {
+		return false
+	}
+	fromMap := func(m ssa.Value) bool {
+		mk := privateMap(m)
+		if mk == nil {
+			return false
+		}
+		for _, ref := range *mk.Referrers() {
+			if mu, isMU := ref.(*ssa.MapUpdate); isMU && typeHoldsFunc(mu.Value.Type(), 0) {
+				if !localFuncOrigins(mu.Value, depth+1, seen, out) {
+					return false
+				}
+			}
+		}
+		return true
+	}
+	switch x := v.(type) {
+	case *ssa.MakeClosure, *ssa.Function:
+		*out = append(*out, v)
+		return true
+	case *ssa.Const:
+		return x.Value == nil // nil: the call panics, nothing is written
+	case *ssa.Phi:
+		for _, e := range x.Edges {
+			if !localFuncOrigins(e, depth+1, seen, out) {
+				return false
+			}
+		}
+		return true
+	case *ssa.Field:
+		return localFuncOrigins(x.X, depth+1, seen, out)
+	case *ssa.Index:
+		return localFuncOrigins(x.X, depth+1, seen, out)
+	case *ssa.ChangeType:
+		return localFuncOrigins(x.X, depth+1, seen, out)
+	case *ssa.Lookup:
+		return fromMap(x.X)
+	case *ssa.Extract:
+		if nx, isNext := x.Tuple.(*ssa.Next); isNext && !nx.IsString {
+			if rg, isRange := nx.Iter.(*ssa.Range); isRange {
+				return fromMap(rg.X)
+			}
+		}
+		if lk, isLookup := x.Tuple.(*ssa.Lookup); isLookup && lk.CommaOk {
+			return fromMap(lk.X)
+		}
+		return false
+	case *ssa.UnOp:
+		if x.Op != token.MUL {
+			return false
+		}
+		al := privateRegion(x.X)
+		if al == nil {
+			return false
+		}
+		for _, sv := range regionStores(al) {
+			if typeHoldsFunc(sv.Type(), 0) {
+				if !localFuncOrigins(sv, depth+1, seen, out) {
+					return false
+				}
+			}
+		}
+		return true
+	}
+	return false
+}
+
+// captureReadOnly: the literal cf only reads the variables it captured (it neither assigns them nor lets their
+// address travel), so at every call they hold a value the creator stored. A bound-method wrapper captures the
+// receiver by value.
+func captureReadOnly(cf *ssa.Function) bool {
+	if cf.Synthetic != "" {
+		return true
+	}
+	for _, fv := range cf.FreeVars {
+		if fv.Referrers() == nil {
+			return false
+		}
+		for _, ref := range *fv.Referrers() {
+			switch x := ref.(type) {
+			case *ssa.DebugRef:
+			case *ssa.UnOp:
+				if x.Op != token.MUL {
+					return false
+				}
+			default:
+				return false
+			}
+		}
+	}
+	return true
+}
+
+// c16TransparentClosure: whatever the literal cf writes through an object of unknown origin, it writes through
+// a captured variable: with the captured variables taken out, no written address (and no written argument of a
+// call) has an unknown root, and no callee of cf contributes an unknown-origin write of its own.
+func (w *WriteThrough) c16TransparentClosure(cf *ssa.Function) bool {
+	if len(cf.FreeVars) == 0 || !captureReadOnly(cf) {
+		return false
+	}
+	targets, opaque := w.writeTargets(cf)
+	if opaque {
+		return false
+	}
+	for _, t := range targets {
+		seen := map[ssa.Value]bool{}
+		for _, fv := range cf.FreeVars {
+			seen[fv] = true // roots() passes over a value it has seen: the captured variables contribute nothing
+		}
+		if w.roots(cf, t, 0, seen)[rootUnknown] {
+			return false
+		}
+	}
+	return true
+}
+
+// bindingsSettled: every variable that the closure mc captured by reference is assigned only by the creating
+// function itself: besides loads and stores there, it is captured only by literals that do not assign it.
+func bindingsSettled(mc *ssa.MakeClosure) bool {
+	for _, b := range mc.Bindings {
+		al, isAlloc := b.(*ssa.Alloc)
+		if !isAlloc {
+			continue // captured by value
+		}
+		for _, ref := range *al.Referrers() {
+			switch x := ref.(type) {
+			case *ssa.DebugRef:
+			case *ssa.UnOp:
+				if x.Op != token.MUL {
+					return false
+				}
+			case *ssa.Store:
+				if x.Addr != ssa.Value(al) {
+					return false
+				}
+			case *ssa.MakeClosure:
+				cf, _ := x.Fn.(*ssa.Function)
+				if cf == nil || !captureReadOnly(cf) {
+					return false
+				}
+			default:
+				return false
+			}
+		}
+	}
+	return true
+}
+
+// c16AttributedCallees: the callees of the call c in fn whose unknown-origin writes are fully attributed by
+// the bindings of closures that fn itself made (see the section comment).
+func (w *WriteThrough) c16AttributedCallees(fn *ssa.Function, c ssa.CallInstruction) map[*ssa.Function]bool {
+	com := c.Common()
+	if com.IsInvoke() || com.StaticCallee() != nil {
+		// a literal called in place is a static call of a MakeClosure
+		mc, isMC := com.Value.(*ssa.MakeClosure)
+		if !isMC {
+			return nil
+		}
+		cf, _ := mc.Fn.(*ssa.Function)
+		if cf != nil && bindingsSettled(mc) && w.c16TransparentClosure(cf) {
+			return map[*ssa.Function]bool{cf: true}
+		}
+		return nil
+	}
+	var origins []ssa.Value
+	if !localFuncOrigins(com.Value, 0, map[ssa.Value]bool{}, &origins) {
+		return nil
+	}
+	out := map[*ssa.Function]bool{}
+	rejected := map[*ssa.Function]bool{}
+	for _, o := range origins {
+		mc, isMC := o.(*ssa.MakeClosure)
+		if !isMC {
+			continue
+		}
+		cf, _ := mc.Fn.(*ssa.Function)
+		if cf == nil {
+			continue
+		}
+		if mc.Parent() == fn && bindingsSettled(mc) && w.c16TransparentClosure(cf) {
+			out[cf] = true
+		} else {
+			rejected[cf] = true
+		}
+	}
+	for cf := range rejected {
+		delete(out, cf)
+	}
+	return out
+}
+
+// c16PruneAttributedUnknown removes the unknown-origin facts that have no derivation left once the calls
+// described above stop contributing: a least fixpoint over "this fact is justified" - the function performs
+// the write itself, or a callee's justified unknown-origin fact arrives through a call that is not attributed,
+// or a callee writes through a parameter whose argument has an unknown root, or a closure made here writes
+// through a binding with an unknown root.
+func (w *WriteThrough) c16PruneAttributedUnknown(funcs []*ssa.Function) {
+	attributed := map[ssa.CallInstruction]map[*ssa.Function]bool{}
+	any := false
+	for _, fn := range funcs {
+		Instrs(fn, func(_ *ssa.BasicBlock, _ int, in ssa.Instruction) {
+			if c, ok := in.(ssa.CallInstruction); ok {
+				if m := w.c16AttributedCallees(fn, c); len(m) > 0 {
+					attributed[c] = m
+					any = true
+				}
+			}
+		})
+	}
+	if !any {
+		return
+	}
+	just := map[*ssa.Function]map[string]bool{}
+	for _, fn := range funcs {
+		just[fn] = map[string]bool{}
+	}
+	boundUnknown := map[*ssa.MakeClosure]bool{}
+	boundKnown := map[*ssa.MakeClosure]bool{}
+	closureBindsUnknown := func(fn *ssa.Function, mc *ssa.MakeClosure, cf *ssa.Function) bool {
+		if boundKnown[mc] {
+			return boundUnknown[mc]
+		}
+		boundKnown[mc] = true
+		through := w.writtenFreeVars(cf)
+		for i, b := range mc.Bindings {
+			if i >= len(cf.FreeVars) || !through[cf.FreeVars[i]] {
+				continue
+			}
+			if w.roots(fn, b, 0, map[ssa.Value]bool{})[rootUnknown] {
+				boundUnknown[mc] = true
+			}
+			if al, isAl := b.(*ssa.Alloc); isAl {
+				for _, ref := range *al.Referrers() {
+					if st, isSt := ref.(*ssa.Store); isSt && st.Addr == ssa.Value(al) && isPointerLike(st.Val.Type()) {
+						if w.roots(fn, st.Val, 0, map[ssa.Value]bool{})[rootUnknown] {
+							boundUnknown[mc] = true
+						}
+					}
+				}
+			}
+		}
+		return boundUnknown[mc]
+	}
+	derivable := func(fn *ssa.Function, what string) bool {
+		found := false
+		Instrs(fn, func(_ *ssa.BasicBlock, _ int, in ssa.Instruction) {
+			if found {
+				return
+			}
+			if mc, ok := in.(*ssa.MakeClosure); ok && valueUsed(mc) {
+				if cf, _ := mc.Fn.(*ssa.Function); cf != nil {
+					for _, t := range w.W[cf] {
+						if t.Param == rootUnknown && t.What == what && closureBindsUnknown(fn, mc, cf) {
+							found = true
+						}
+					}
+				}
+				return
+			}
+			c, ok := in.(ssa.CallInstruction)
+			if !ok {
+				return
+			}
+			args := c.Common().Args
+			if c.Common().IsInvoke() {
+				args = append([]ssa.Value{c.Common().Value}, args...)
+			}
+			for _, callee := range w.calleesOf(fn, c) {
+				for _, t := range w.W[callee] {
+					if t.What != what {
+						continue
+					}
+					switch {
+					case t.Param == rootUnknown:
+						if !attributed[c][callee] && (!w.Funcs[callee] || just[callee][what]) {
+							found = true
+						}
+					case t.Param >= 0 && t.Param < len(args):
+						if w.roots(fn, args[t.Param], 0, map[ssa.Value]bool{})[rootUnknown] {
+							found = true
+						}
+					}
+				}
+			}
+		})
+		return found
+	}
+	for changed := true; changed; {
+		changed = false
+		for _, fn := range funcs {
+			for _, t := range w.W[fn] {
+				if t.Param != rootUnknown || just[fn][t.What] {
+					continue
+				}
+				if len(t.Via) <= 1 || derivable(fn, t.What) {
+					just[fn][t.What] = true
+					changed = true
+				}
+			}
+		}
+	}
+	for _, fn := range funcs {
+		kept := w.W[fn][:0:0]
+		for _, t := range w.W[fn] {
+			if t.Param == rootUnknown && !just[fn][t.What] {
+				continue
+			}
+			kept = append(kept, t)
+		}
+		w.W[fn] = kept
+	}
 }
